@@ -1279,3 +1279,34 @@ pub fn respell_family(seed: u64, thorough: bool) -> Vec<Job> {
     }
     jobs
 }
+
+#[cfg(test)]
+mod tests {
+    use super::*;
+    #[test]
+    fn bump() {
+        assert_eq!(bump_last(b"1299", true), b"1300".to_vec());
+        assert_eq!(bump_last(b"999", true), b"1000".to_vec());
+        assert_eq!(bump_last(b"1000", false), b"999".to_vec());
+        assert_eq!(bump_last(b"15", false), b"14".to_vec());
+    }
+    #[test]
+    fn families_are_deterministic_and_valid() {
+        // every emitted case has digit bytes only and an integer part without leading zeros
+        let mut n = 0u64;
+        let mut check = |c: &Case| {
+            n += 1;
+            assert!(c.int.iter().chain(c.frac.iter()).all(|b| b.is_ascii_digit()));
+            assert!(c.int.first() != Some(&b'0'), "leading zero in {:?}", std::str::from_utf8(c.int));
+        };
+        for j in seam(22, 23).iter().chain(short(2, -3, 3, "S").iter()).chain(boundary_deep(F32, 64, 0, 114, false).iter().take(3)).chain(extreme(false).iter().take(2)) {
+            j(&mut check);
+        }
+        for j in respell_family(0, false).iter().take(3).chain(chains_floats(F64, 4, 0, 0, 512).iter().take(2)) {
+            j(&mut check);
+        }
+        assert!(n > 10_000);
+        assert_eq!(patterns(F64, 32, 7), patterns(F64, 32, 7));
+        assert_ne!(patterns(F64, 32, 7), patterns(F64, 32, 8));
+    }
+}
